@@ -318,7 +318,7 @@ PROPS = {
         "open_statements": ["C07_engine (no panic for every accepted configuration and call sequence) is stated per unit, not as one theorem over the whole library"],
     },
     "C09": {
-        "engines": [_eng("acct", 25000, 800000), _eng("", 10000, 300000)],
+        "engines": [_eng("acct", 25000, 800000), _eng("", 10000, 300000), {"name": "capseq", "quick": 1500, "thorough": 40000, "shards": 4}],
         "nontrivial": _eng_nontrivial, "rule": _ENG_RULE + "Profile `acct`: more setvar (+N, -N, assign, delete, macro keys/values), chains, multiMatch.",
         "modelled": _ENG_MODELLED, "assumptions": _ENG_ASSUME,
         "open_statements": ["C09_signed_sum covers literal operands of either sign through negative totals inside the int64 range (Itoa/Atoi round trip on "
